@@ -8,12 +8,15 @@
 (*  "case"      one term list (register-indexed, Gaussian-integer          *)
 (*              coefficients) with flags jw / pd, the final terms reported *)
 (*              by the builder, the dense form of every representation     *)
+(*              (including the table of the VMC coupling function),        *)
 (*              (entries scaled by 2^F and snapped to Gaussian integers),  *)
 (*              and the same for symmetry sectors together with the rank   *)
 (*              -> configuration table of the sector;                      *)
 (*  "ranktable" the complete rank -> configuration table of one sector as  *)
 (*              returned by the real kernels / HilbertSpace, and the ranks *)
 (*              returned for those configurations;                         *)
+(*  "mixedtable" the same for an unconstrained space of arbitrary local    *)
+(*              dimensions (digit strings);                                *)
 (*  "rel"       quantised distance between one representation and a        *)
 (*              reference for inputs outside the exact domain (floats);    *)
 (*  "model1d"   quantised distance between a spin-chain builder and the    *)
@@ -37,6 +40,7 @@ ClauseOfKind(kind) ==
     [] kind = "local"  -> "LocalTermsEq"
     [] kind = "ikron"  -> "IkronEq"
     [] kind = "mpo"    -> "MpoEq"
+    [] kind = "coupling" -> "CouplingEq"
     [] OTHER           -> "UnknownRepresentation"
 
 PauliSet(pd) == IF pd = 1 THEN {"x", "y", "z"} ELSE {"x", "zx", "z"}
@@ -60,11 +64,25 @@ CaseClauses(ln) ==
              THEN <<"SameSiteProductScalar", FALSE>>
              ELSE <<ClauseOfKind(kind), FALSE>>
       emptyop  == ln.fok /\ Len(ln.fterms) = 0
+      \* coupling function (not in the statement's list of representations: judged leniently): the
+      \* documentation defines the coefficient returned for the pair (x -> y) as <x|H|y>, i.e. the table
+      \* indexed [x][y] is the matrix itself; the transposed table (<y|H|x>, what the kernels produce) is
+      \* accepted and only recorded as a NOTE; anything else is wrong under either convention.
+      Coupling(rep) ==
+        IF rep.exc = "" /\ rep.grid /\ rep.mat = expected THEN <<"CouplingEq", TRUE>>
+        ELSE IF rep.exc = "" /\ rep.grid /\ rep.mat = TransposeFlat(expected, D)
+             THEN <<"NOTE:CouplingRowConvention", FALSE>>
+        ELSE IF ln.samesite /\ rep.exc = "" /\ rep.grid
+                /\ (\/ FlatScale(Pow2(AsFound!FS), rep.mat) = asfound
+                    \/ FlatScale(Pow2(AsFound!FS), rep.mat) = TransposeFlat(asfound, D))
+             THEN <<"SameSiteProductScalar", FALSE>>
+             ELSE <<"CouplingEq", FALSE>>
       RepClause(rep) ==
         IF rep.kind = "local" /\ rep.exc # "" /\ hasconst
         THEN <<"LocalTermsEq", TRUE>>      \* a constant term has no local-term form: rejection, not a wrong value
         ELSE IF rep.kind \in {"ikron", "mpo"} /\ rep.exc # "" /\ emptyop
         THEN <<ClauseOfKind(rep.kind), TRUE>>   \* the zero operator has no term to build from: rejection
+        ELSE IF rep.kind = "coupling" THEN Coupling(rep)
         ELSE Blame(rep.kind, rep, expected, asfound)
       fh  == MaxHalf(ln.fterms)
       fmat == MatrixFlat(ln.fterms, n, fh, FALSE)           \* final terms are plain (spin) operators
@@ -120,6 +138,24 @@ RankClauses(ln) ==
          <<"OrderingHonoured", ln.order_ok>>,
          <<"NOTE:ModelDrift", ln.exc = "" /\ wf /\ \A i \in 1..Len(ln.tab) : ln.tab[i] = model[i]>> >>
 
+(* ---------------------------- "mixedtable" ------------------------------ *)
+(* unconstrained space with arbitrary local dimensions: the ranking is a    *)
+(* bijection between [0, prod dims) and the digit strings below dims        *)
+RECURSIVE ProdSeq(_, _)
+ProdSeq(s, k) == IF k = 0 THEN 1 ELSE s[k] * ProdSeq(s, k - 1)
+MixedClauses(ln) ==
+  LET size == ProdSeq(ln.dims, Len(ln.dims))
+  IN  << <<"UnrankReturns", ln.exc = "">>,
+         <<"RankReturns", ln.iexc = "">>,
+         <<"RankSize", ln.exc = "" /\ Len(ln.tab) = size /\ ln.size = size>>,
+         <<"RankInSector", ln.exc = "" /\ \A i \in 1..Len(ln.tab) :
+                              /\ Len(ln.tab[i]) = Len(ln.dims)
+                              /\ \A k \in 1..Len(ln.dims) : ln.tab[i][k] \in 0..ln.dims[k] - 1>>,
+         <<"RankInjective", ln.exc = "" /\ Cardinality({ln.tab[i] : i \in 1..Len(ln.tab)}) = Len(ln.tab)>>,
+         <<"RankRoundTrip", ln.iexc # "" \/ (ln.exc = "" /\ Len(ln.inv) = Len(ln.tab)
+                                              /\ \A i \in 1..Len(ln.inv) : ln.inv[i] = i - 1)>>,
+         <<"OrderingHonoured", ln.order_ok>> >>
+
 (* ------------------------- "rel" and "model1d" -------------------------- *)
 RelClauses(ln) ==
   IF ln.allowed_exc /\ ln.exc # "" THEN << <<"Rel" \o ClauseOfKind(ln.kind), TRUE>> >>
@@ -130,6 +166,7 @@ ModelClauses(ln) == << <<"ModelsAgree", ln.exc = "" /\ ln.q = 0>> >>
 Clauses(ln) ==
   CASE ln.ev = "case"      -> CaseClauses(ln)
     [] ln.ev = "ranktable" -> RankClauses(ln)
+    [] ln.ev = "mixedtable" -> MixedClauses(ln)
     [] ln.ev = "rel"       -> RelClauses(ln)
     [] ln.ev = "model1d"   -> ModelClauses(ln)
     [] OTHER               -> << <<"UnknownEvent", FALSE>> >>
